@@ -1,10 +1,72 @@
-(* LIBBUILD -- theorems about the constructor programs of LibBuild/Model.v, for ALL descriptions and cycle counts. *)
+(* LIBBUILD -- theorems about the constructor programs of LibBuild/Model.v, for ALL descriptions and cycle counts.
+   Order.v   the first command's block is listed first (general, any program)
+   Tags.v    measurement tags per qubit in the unrolled listing (any description)
+   Counts.v  closed formulas for the number of operations / measurements; the listing-size hypothesis numerically
+   Chain.v   the chain description of every distance
+   Layouts.v the 82 sub-chains of the shipped layouts; C13's vocabulary
+   Cert.v    (partial) the C10 certificate on the constructor programs of small chains
+   This file: well-formedness, the 1/2/3 split, examples. *)
 From Coq Require Import ZArith List Bool Lia Arith Permutation.
 Import ListNotations.
-From QCE Require Import Base.Prelude Core.Model Core.Run Core.BfsProofs Core.BfsWf C09.Model LibBuild.Model.
+From QCE Require Import Base.Prelude Core.Model Core.Run Core.BfsProofs Core.BfsWf C02.Proofs C06.Proofs C09.Model LibBuild.Model.
+From QCE Require Export LibBuild.Order LibBuild.Tags LibBuild.Counts LibBuild.Chain LibBuild.Layouts LibBuild.Cert.
 From Gen Require Import Ident Classes.
 Open Scope Z_scope.
 
-(* (a) every circuit the constructors build is a well-formed forest at every nesting level *)
+(* ------------------------------------------------------------------ (a) well-formed at every nesting level *)
 Theorem rep_code_wf env D init anc cycles : wf_op (OComp 1 (run_prog env (rep_code_prog D init anc cycles))).
 Proof. apply run_prog_wf_op. Qed.
+Theorem simplified_wf env D init anc cycles : wf_op (OComp 1 (run_prog env (simplified_prog D init anc cycles))).
+Proof. apply run_prog_wf_op. Qed.
+Theorem calibration_wf env qs qutrit : wf_op (OComp 1 (run_prog env (calibration_prog qs qutrit))).
+Proof. apply run_prog_wf_op. Qed.
+(* ... also after unrolling *)
+Theorem rep_code_unrolled_wf env D init anc cycles :
+  wf_op (OComp 1 (apply_modifiers env 1 (run_prog env (rep_code_prog D init anc cycles)))).
+Proof. apply TimesWf.apply_modifiers_wf_op. apply run_prog_wf_op. Qed.
+
+(* ------------------------------------------------------------------ the 1 / 2 / 3 sub-circuit split *)
+(* from four cycles on: the first block twice, the repeated block cycles - 3 times, the round without decoupling once *)
+Theorem qec_split_bulk D cycles : 3 < cycles ->
+  circuit_qec_with_detectors D cycles = [CSub 2 (first_sub D); CSub (cycles - 3) (second_sub D); CSub 1 (third_sub D)].
+Proof.
+  intros H. unfold circuit_qec_with_detectors.
+  assert (E0 : (cycles =? 0) = false) by lia. assert (E1 : (cycles >? 1) = true) by lia. assert (E3 : (cycles >? 3) = true) by lia.
+  rewrite E0, E1, E3. replace (Z.min 2 (cycles - 1)) with 2 by lia. replace (cycles - 2 - 1) with (cycles - 3) by lia. reflexivity.
+Qed.
+
+Theorem qec_split_small D :
+  circuit_qec_with_detectors D 0 = map (meas T_FINAL) (r_anc D)
+  /\ circuit_qec_with_detectors D 1 = [CSub 1 (third_sub D)]
+  /\ circuit_qec_with_detectors D 2 = [CSub 1 (first_sub D); CSub 1 (third_sub D)]
+  /\ circuit_qec_with_detectors D 3 = [CSub 2 (first_sub D); CSub 1 (third_sub D)].
+Proof. repeat split. Qed.
+
+(* every ancilla is measured exactly once per cycle: the three counts add up *)
+Theorem qec_rounds_total cycles : 1 <= cycles -> (n_first cycles + n_second cycles + 1)%nat = Z.to_nat cycles.
+Proof. exact (n_rounds cycles). Qed.
+
+(* ------------------------------------------------------------------ examples: the hypotheses are satisfiable, the statements are not vacuous *)
+Definition ex_env : denv := mk_env 8 2 4 16 [].
+Definition ex_D : rdesc := desc_of_chain 3 true.
+Definition ex_prog : list cmd := rep_code_prog ex_D [true; false; true] [true] 5.
+
+Example ex_small : unroll_small_prog ex_prog.
+Proof. apply chain_small; [lia | lia | vm_compute; discriminate]. Qed.
+
+(* computed directly: ancilla 1 reads heralded, then five parities; 181 operations, 18 measurements *)
+Example ex_tags_computed : tags_of 1 (unrolled_leaves ex_env ex_prog) = [3; 4; 4; 4; 4; 4].
+Proof. vm_compute. reflexivity. Qed.
+Example ex_tags_theorem : tags_of 1 (unrolled_leaves ex_env ex_prog) = want_anc_tags 5.
+Proof. apply chain_anc_tags; try lia. simpl; auto. Qed.
+Example ex_counts_computed :
+  length (unrolled_leaves ex_env ex_prog) = 181%nat /\ length (filter has_acq (unrolled_leaves ex_env ex_prog)) = 18%nat.
+Proof. vm_compute. split; reflexivity. Qed.
+Example ex_counts_theorem :
+  Z.of_nat (length (unrolled_leaves ex_env ex_prog)) = 16 * 3 + 1 - 2 + 11 * 3 * (5 - 1) + Z.max 0 (5 - 3)
+  /\ length (filter has_acq (unrolled_leaves ex_env ex_prog)) = (2 * 3 - 1 + 5 * (3 - 1) + 3)%nat.
+Proof.
+  split.
+  - rewrite (unrolled_n_ops ex_env ex_prog ex_small). unfold ex_prog, ex_D. rewrite chain_n_ops; [reflexivity | lia | lia | reflexivity | simpl; lia].
+  - rewrite (unrolled_n_meas ex_env ex_prog ex_small). unfold ex_prog, ex_D. rewrite chain_n_meas by lia. reflexivity.
+Qed.
